@@ -17,6 +17,7 @@ static uint64_t sm64 (uint64_t *s)
 }
 
 static int obj_quiet;
+static void (*crypt_suffix) (void);
 static void op_obj (int n, char **tok)
 {
   if (n < 4) { printf ("bad-op\n"); return; }
@@ -86,7 +87,9 @@ static void op_crypt (int n, char **tok)
             !memcmp (d->setting, snap->setting, sizeof d->setting) && !memcmp (d->input, snap->input, sizeof d->input));
   else if (d) printf (" wz=%d wu=? app=?", scratch_zero (d));
   else printf (" wz=? wu=? app=?");
-  printf (" abort=%d\n", aborted);
+  printf (" abort=%d", aborted);
+  if (crypt_suffix) crypt_suffix ();
+  printf ("\n");
   free (phrase); free (setting);
 }
 
